@@ -65,6 +65,7 @@ class WriterExec:
         self.assume = dict(assume or {})  # canonical condition text -> bool
         self.folder = Folder(repo, mod.name, self.consts)
         self.unknown_conds = []  # conditions left symbolic
+        self.stores = {}  # attribute stores seen: "self._x" -> terms
         self.notes = []
         self.inline = inline or {}
         self.max_inline = max_inline
@@ -206,7 +207,7 @@ class WriterExec:
         if nm in HASHES:
             return [("hash", nm, [self.sym(a, env) for a in args][0] if len(args) == 1 else sum([self.sym(a, env) for a in args], []))]
         if isinstance(e.func, ast.Attribute) and isinstance(e.func.value, ast.Name) and e.func.value.id == "self" and not e.args and not e.keywords \
-                and self.max_inline > 0 and nm not in ("hash", "id"):
+                and self.max_inline > 0 and (nm.startswith(("serialize", "raw_serialize", "_serialize")) or nm in self.inline):
             # self-call of a sibling serializer: inline its layout
             cls = None
             for qn, f in self.mod.functions.items():
@@ -345,7 +346,13 @@ class WriterExec:
         elif isinstance(target, (ast.Tuple, ast.List)) and isinstance(value, (ast.Tuple, ast.List)) and len(target.elts) == len(value.elts):
             for t, v in zip(target.elts, value.elts):
                 self.assign(t, v, env)
-        # attribute / subscript stores are ignored by the writer executor
+        elif isinstance(target, ast.Attribute):
+            # attribute stores are recorded (memo fields): "self._x" -> terms
+            key = ast.unparse(target)
+            if self.is_bytes(value, env):
+                self.stores[key] = self.sym(value, env)
+            else:
+                self.stores[key] = [("expr", canon(value, env))]
 
     def _merge_env(self, txt, ea, eb):
         out = Env()
